@@ -726,6 +726,7 @@ class Interp:
             s = z3.simplify(b)
             if z3.is_rational_value(s) and s.numerator_as_long() == 1 and s.denominator_as_long() == 2:
                 return self.ext['sqrt'](self, a)
+            if self.ext.get('pow_hook'): return self.ext['pow_hook'](self, a, b)
             raise Unsupported("symbolic power")
         raise Unsupported(f"binop {op.__name__}")
     def e_Subscript(self, e, F):
